@@ -40,8 +40,8 @@ pub fn gen(seed: u64, idx: u64, tier: Tier) -> Scenario {
     let mut sc = Scenario::new("C12", seed);
     sc.steps.push(Step::Connect { c: 0, inst: 0, buf: 0 });
     // the command stream of one of the model-based checks (same argument spaces), without its clock steps
-    let fam = idx % 4;
-    let inner = match fam { 0 => super::c01::gen(seed ^ 0x12, 0, tier), 1 => super::c03::gen(seed ^ 0x12, 0, tier), 2 => super::c04::gen(seed ^ 0x12, 0, tier), _ => super::c15::gen(seed ^ 0x12, 0, tier) };
+    let fam = idx % 5;
+    let inner = match fam { 0 => super::c01::gen(seed ^ 0x12, 0, tier), 1 => super::c03::gen(seed ^ 0x12, 0, tier), 2 => super::c04::gen(seed ^ 0x12, 0, tier), 3 => super::c15::gen(seed ^ 0x12, 0, tier), _ => super::c02::gen(seed ^ 0x12, 0, tier) };
     sc.knobs.insert("family".into(), fam as i64);
     if r.chance(1, 3) { sc.steps.push(Step::Cmd { c: 0, a: vec![b("SELECT"), b(*r.pick(&["1", "7", "15"]))], split: vec![] }); }
     let limit = match tier { Tier::Quick => 60, Tier::Thorough => 200 };
@@ -55,6 +55,20 @@ pub fn gen(seed: u64, idx: u64, tier: Tier) -> Scenario {
             n += 1;
             // how the command is wrapped: call, pcall, with its key in KEYS, through EVALSHA
             sc.steps.push(Step::Ctl { name: "diff".into(), n: r.below(4) as i64, a: a.clone() });
+            // forms the command streams above do not contain: a time that is not positive, the seconds-resolution reading of a
+            // time-to-live, set members picked by count (compared where the outcome is forced: a one-member set, a missing key)
+            if r.chance(1, 10) {
+                let extra: Vec<Vec<B>> = match r.below(7) {
+                    0 => vec![vec![b("SET"), b("x:k"), b("v"), b("EX"), b("100")], vec![b("EXPIRE"), b("x:k"), b(*r.pick(&["-1", "0", "-100"]))]],
+                    1 => vec![vec![b("SET"), b("x:t"), b("v"), b("PX"), b(*r.pick(&["10500", "99999", "2001"]))], vec![b("TTL"), b("x:t")]],
+                    2 => vec![vec![b("DEL"), b("x:s")], vec![b("SADD"), b("x:s"), b("only")], vec![b(*r.pick(&["SPOP", "SRANDMEMBER"])), b("x:s"), b("1")]],
+                    3 => vec![vec![b("DEL"), b("x:s")], vec![b("SADD"), b("x:s"), b("only")], vec![b(*r.pick(&["SPOP", "SRANDMEMBER"])), b("x:s")]],
+                    4 => vec![vec![b(*r.pick(&["SPOP", "SRANDMEMBER"])), b("x:missing")], vec![b(*r.pick(&["SPOP", "SRANDMEMBER"])), b("x:missing"), b("2")]],
+                    5 => vec![vec![b("SET"), b("x:o"), b("v"), b("EX"), b("100")], vec![b("SET"), b("x:o"), b("w"), b("KEEPTTL")]],
+                    _ => vec![vec![b("SET"), b("x:o"), b("v")], vec![b("SET"), b("x:o"), b("w"), b("GET")]],
+                };
+                for a in extra { sc.steps.push(Step::Ctl { name: "diff".into(), n: r.below(4) as i64, a }); }
+            }
             if r.chance(1, 12) { sc.steps.push(Step::Ctl { name: "shape".into(), n: r.below(SHAPES.len() as u64) as i64, a: vec![] }); }
             if r.chance(1, 14) { sc.steps.push(Step::Ctl { name: "escape".into(), n: r.below(ESCAPES.len() as u64) as i64, a: vec![] }); }
             if r.chance(1, 14) { sc.steps.push(Step::Ctl { name: "argv".into(), n: (r.next() >> 1) as i64, a: vec![] }); }
@@ -202,7 +216,9 @@ pub fn exec(sc: &Scenario) -> Outcome {
             Step::Cmd { a, .. } => { tw.both(&args_of(a)); }
             Step::Ctl { name, n, a } if name == "diff" && !a.is_empty() => {
                 let cmd = args_of(a);
-                let verb = upper(&cmd[0]);
+                let mut verb = upper(&cmd[0]);
+                // (SET's newer options name their own violation classes: two recorded findings are about them only)
+                if verb == "SET" { for o in ["KEEPTTL", "GET"] { if cmd.iter().skip(3).any(|x| upper(x) == o) { verb = format!("SET+{}", o); break; } } }
                 tw.stabilise();
                 let (how, script, numkeys, rest): (&str, &str, usize, Vec<Vec<u8>>) = match *n {
                     1 => ("pcall", PCALL, 0, cmd.clone()),
